@@ -145,10 +145,9 @@ impl Unreal2Protocol {
                 .min(MAXIMUM_PLAYER_PREALLOCATION),
         );
 
-        // Fetch first players packet (with retries)
-        let mut players_data = self.get_request_data(PacketKind::Players);
-        // Players are non required so if we don't get any responses we continue to
-        // return
+        // Fetch first players packet (with retries), not getting any response is an error:
+        // whether that is fatal is decided by the gathering settings
+        let mut players_data = Ok(self.get_request_data(PacketKind::Players)?);
         // Packets have no sequence number: remember them to ignore the ones delivered twice
         let mut received_packets: Vec<Vec<u8>> = Vec::new();
         while let Ok(data) = players_data {
